@@ -7,6 +7,9 @@ PROP_FILE = "PwVerif/Props/C05.lean"
 DRIVER = "Driver/C05.lean"
 THEOREMS = [
     "C05_transparent",
+    "C05_transparent_commit",
+    "C05_transparent_proposed",
+    "C05_interrupted_job_fails",
     "C05_transparent_from",
     "C05_submit_hit_settles",
     "C05_current_partial",
@@ -40,6 +43,8 @@ RULE = (
     "by canonical op list"
 )
 TRUSTED = [
+    "the cache discipline of the tree under test (R / S / N) is probed by two 5-op histories per worker process; the "
+    "correspondence demands that variant of the model",
     "model Cache.step transcribes Node._before_run's cache logic and the outcomes of Runnable._run / _finish_run / "
     "_run_exception for ONE node (local run, executor job completing, cancelled, lost, late; Exception / "
     "KeyboardInterrupt / BaseException / process_run_result failure)",
@@ -304,9 +309,35 @@ def _apply_node(n, op, exe, newest=False):
     return "bad-op"
 
 
+_VARIANT = None
+
+
+def _probe_variant():
+    """which cache discipline the tree under test has — by behaviour, once per worker process:
+    R = cache written at admission (a lost job + manual reset gives a stale hit; /repo before b54ba0f),
+    S = cache records a processed result, a KeyboardInterrupt in a job leaves the node not failed (before f3b0474),
+    N = … and a KeyboardInterrupt in a job fails the node (/repo now).
+    The correspondence then demands THIS variant of the model, so a reverted fix shows as its old variant (whose
+    violations the oracle reports) and a half-reverted one as a divergence."""
+    global _VARIANT
+    if _VARIANT is None:
+        from . import nodes_c05 as nc
+
+        nc.reset(BEH)
+        nc.WHO = "c"
+        e, n = QExec(), _mk_node(True)
+        stale = [_apply_node(n, op, e) for op in ("set2", "submit", "drop", "resetrunning", "run")][-1] == "ret:ND"
+        e, n = QExec(), _mk_node(True)
+        for op in ("set4", "submit", "complete"):
+            _apply_node(n, op, e)
+        _VARIANT = "R" if stale else ("N" if n.failed else "S")
+    return _VARIANT
+
+
 def _run_node_case(case):
     from . import nodes_c05 as nc
 
+    variant = _probe_variant()
     nc.reset(BEH)
     ea, eb = QExec(), QExec()
     a = _mk_node(True)
@@ -333,8 +364,8 @@ def _run_node_case(case):
         rows.append({"op": op, "c": ra, "u": rb, "vc": _vis(a), "vu": _vis(b), "settled": settled, "line": line,
                      "running_before_reset": None})
         lines.append(line)
-    return {"obs": lines, "rows": rows, "hits": hits, "special": special,
-            "stats": {"node_cases": 1, "hits": hits, "failed_refused_inflight_cancelled_lost": special,
+    return {"obs": lines, "rows": rows, "hits": hits, "special": special, "variant": variant,
+            "stats": {"node_cases": 1, "variant_" + variant: 1, "hits": hits, "failed_refused_inflight_cancelled_lost": special,
                       "settled_submit_hits": sum(r["settled"] for r in rows),
                       **{"op_" + o: sum(1 for r in rows if r["op"] == o) for o in ("cancel", "drop", "resetrunning")}}}
 
@@ -933,8 +964,10 @@ def diff(case, impl, model):
         if r["settled"]:
             break
         mine.append(r["line"])
-    # R = the tree as it is, S = with the proposed repair (commit the cache when the result is processed)
-    variants = {tag: [l[2:] for l in model if l.startswith(tag + " ")] for tag in ("R", "S")}
+    # R = /repo before b54ba0f, S = cache recorded on success, N = /repo now (+ KeyboardInterrupt caught in the callback):
+    # the variant the tree was probed to have (old replay files without the probe: any)
+    tags = (impl["variant"],) if impl.get("variant") else ("R", "S", "N")
+    variants = {tag: [l[2:] for l in model if l.startswith(tag + " ")] for tag in tags}
     return _diff_variants(mine, variants, case["ops"])
 
 
